@@ -1,1 +1,40 @@
-From Coq Require Import ZArith.
+(* C16 — Pixels are invariant under re-expression of the same picture.  PARTIAL.
+   What is proved is at the level of the calls that reach the rasteriser:
+   (a) offset_invariance: moving the target rectangle changes nothing but the rectangle of each Draw
+       (whose source point stays (0,0)) — for every program, including arcs and gradients;
+   (c) indirect colours are resolved when stored (renderer_refines_vm, C04), so a graphic using palette
+       indices, registers and blends hands the rasteriser the same paints as its resolved form;
+   (d) drawop_first_only: in the model of the vec wrapper the configured operator is used by the first
+       Draw and Over afterwards.
+   What is not proved: that equal calls give equal pixels, that pixels outside the rectangle are untouched
+   (facts about golang.org/x/image/vector, which is not modelled), and (b) scale invariance, which the
+   check exercises bit-exactly on the implementation (PIXEQ runs) but which is not a theorem. *)
+From Coq Require Import ZArith Bool List.
+From IVG Require Import SF NumCodec Color Calls Render Arc RenderProofs VMSpec VMProofs Vec.
+Import ListNotations.
+Local Open Scope Z_scope.
+
+Theorem offset_invariance : forall l dx dy s,
+  rrun32 (shifted dx dy s) l = shifted dx dy (rrun32 s l).
+Proof. exact RenderProofs.offset_invariance. Qed.
+Print Assumptions offset_invariance.
+
+(* the log of the moved renderer is the original log with only the Draw rectangles moved *)
+Theorem offset_log : forall l dx dy s,
+  r_log (rrun32 (shifted dx dy s) l) = map (shift_call dx dy) (r_log (rrun32 s l)).
+Proof. intros. rewrite RenderProofs.offset_invariance. reflexivity. Qed.
+Print Assumptions offset_log.
+
+Theorem indirect_colours_resolved_at_store : forall s c, regs_ok s -> is_reg_op c = true ->
+  vm_eq (vabs (rstep32 s c)) (vm_step (vabs s) c) /\ regs_ok (rstep32 s c) /\ r_log (rstep32 s c) = r_log s.
+Proof. exact VMProofs.renderer_refines_vm. Qed.
+Print Assumptions indirect_colours_resolved_at_store.
+
+Theorem drawop_first_only : forall op n, vec_draws op (S n) = op :: repeat OpOver n.
+Proof.
+  intros op n. cbn. f_equal. induction n as [|n IH]; [reflexivity|]. cbn. f_equal. exact IH.
+Qed.
+Print Assumptions drawop_first_only.
+
+Example ex_shift_call : shift_call 3 5 (RDraw 0 0 8 8 (PFlat (mkRGBA 0 0 0 255))) = RDraw 3 5 11 13 (PFlat (mkRGBA 0 0 0 255)).
+Proof. reflexivity. Qed.
